@@ -259,11 +259,11 @@ pub fn setp<P: Par>(mut p: P, slot: usize, ctx: &Ctx) -> P {
         logp(&p);
     }
     for o in ctx.slots[slot].iter() {
-        sched::log(&format!("\"e\":\"op\",\"k\":\"{}\",\"v\":{}", o.k, o.v.min(2_000_000_000)));
+        sched::log(&format!("\"e\":\"op\",\"k\":\"{}\",\"v\":{}", o.k, (o.value() as u64).min(2_000_000_000)));
         p = match o.k.as_str() {
-            "nt" => p.num_threads(o.v as usize),
-            "cs" => p.chunk_size(o.v as usize),
-            "csmin" => match std::num::NonZeroUsize::new(o.v as usize) {
+            "nt" => p.num_threads(o.value()),
+            "cs" => p.chunk_size(o.value()),
+            "csmin" => match std::num::NonZeroUsize::new(o.value()) {
                 Some(n) => p.chunk_size(ChunkSize::Min(n)),
                 None => p.chunk_size(ChunkSize::Auto),
             },
@@ -317,6 +317,10 @@ pub fn term_core<P: Par<Item = E>>(p: P, ctx: &Ctx) -> Out {
         },
         "collect_x" => Out::Col(p.collect_x().into_iter().collect()),
         "count" => Out::Cnt(p.count()),
+        "none" => {
+            drop(p);
+            Out::Unit
+        }
         "for_each" => {
             p.for_each(ctx.eachf());
             Out::Unit
@@ -381,7 +385,7 @@ pub fn term_full<P: Par<Item = E>>(p: P, ctx: &Ctx) -> Out {
         }
         "collect_into" if ctx.prog.term.tk == "splitlin" => {
             tb();
-            let mut s = SplitVec::with_linear_growth(2);
+            let mut s = SplitVec::with_linear_growth(4);
             for x in mk_target_vec(ctx) {
                 s.push(x);
             }
